@@ -97,8 +97,9 @@ class Path:
 
 
 class Exec:
-    def __init__(self, fn, summaries=None, max_paths=4000):
+    def __init__(self, fn, summaries=None, max_paths=4000, arg_prefix="a"):
         self.fn = fn
+        self.arg_prefix = arg_prefix
         self.paths = []
         self.decls = {}
         self.counter = 0
@@ -139,7 +140,9 @@ class Exec:
                 return v
         typ = typ.strip()
         name = "%s__%s" % (root.split(":", 1)[1], "_".join(str(x if not isinstance(x, tuple) else x[1]) for x in path))
-        if is_ptr_type(typ) and (typ.startswith("&") or typ.startswith("*")):
+        if typ in ("*mut u8", "*const u8"):
+            v = self.fresh_val(p, "in_" + name, "usize")   # byte pointers are plain addresses
+        elif is_ptr_type(typ) and (typ.startswith("&") or typ.startswith("*")):
             obj = self.new_obj(p, "p_" + name)
             v = ("ref", obj, ())
         else:
@@ -255,6 +258,10 @@ class Exec:
         if op in ("Eq", "Ne") and a[0] == "bool":
             t = "(= %s %s)" % (a[1], b[1])
             return ("bool", t if op == "Eq" else "(not %s)" % t)
+        if op in ("Eq", "Ne") and a[0] == "bv" and b[0] == "bv" and a[1] in ELEM_PTRS and b[1] in ELEM_PTRS:
+            (i1, es1), (i2, _) = ELEM_PTRS[a[1]], ELEM_PTRS[b[1]]
+            same = "(or (= %s %s) (= %s %s))" % (i1, i2, es1, bvconst(0))
+            return ("bool", same if op == "Eq" else "(not %s)" % same)
         if a[0] == "ref" or b[0] == "ref":
             raise Unsupported("pointer comparison/arithmetic in binop " + op)
         a, b = self.as_bv(a), self.as_bv(b, a[2] if a[0] == "bv" else 64)
@@ -380,12 +387,17 @@ class Exec:
         raise Unsupported("rvalue: " + rhs)
 
     # -------------------------------------------------------------- driver
-    def run(self):
+    def run(self, init=None):
+        """init: a Path whose cells / path condition / declarations are the starting state (used to run a second
+        function on the result of a first one)"""
         p0 = Path()
+        if init is not None:
+            p0 = init
+            self.decls = p0.decls
         p0.decls = self.decls
         for i, (a, t) in enumerate(self.fn.args):
             t = t.strip()
-            name = "a%d" % (i + 1)
+            name = "%s%d" % (self.arg_prefix, i + 1)
             if t.startswith("&") or t.startswith("*"):
                 p0.cells[("L:" + a, ())] = ("ref", "O:arg%d" % (i + 1), ())
             elif is_scalar_type(t):
@@ -771,12 +783,98 @@ def s_fresh(tag):
     return h
 
 
+def s_fresh_bool(tag):
+    def h(ex, p, callee, argv, lhs):
+        if lhs is not None:
+            ex.counter += 1
+            ex.set_ret(p, lhs, ex.fresh_val(p, "%s_%d" % (tag, ex.counter), "bool"))
+    return h
+
+
 def s_ptr_add(ex, p, callee, argv, lhs):
     a, b = argv
     if a[0] != "bv":
         raise Unsupported("pointer add on non-integer pointer model")
     p.events.append(("ptr_add", callee, [a, b]))
     ex.set_ret(p, lhs, ("bv", "(bvadd %s %s)" % (a[1], ex.as_bv(b)[1]), 64))
+
+
+# element pointers produced by the summaries below: term -> (index term, element-size term). Two in-bounds element
+# pointers of one allocation are equal iff their indices are equal or the elements are zero-sized (no wrap-around inside
+# an allocation); deciding that from the 64-bit products would need multiplication reasoning the solvers do not finish.
+ELEM_PTRS = {}
+
+
+def _vec_cells(ex, p):
+    """(base pointer, element size) of the vector a kernel works on: handle-based kernels reach it through
+    IAnyVecRawPtr (pseudo object O:vecraw), AnyVecRaw methods are called on it directly (O:arg1, field 0 = mem)"""
+    if getattr(ex, "vec_root", "O:vecraw") == "O:vecraw":
+        return ex.read_cell(p, "O:vecraw", ("$base",), "usize"), ex.read_cell(p, "O:vecraw", ("$layout", "size"), "usize")
+    return ex.read_cell(p, "O:arg1", (1, "$base"), "usize"), ex.read_cell(p, "O:arg1", ("$layout", "size"), "usize")
+
+
+def s_elem_ptr(ex, p, callee, argv, lhs):
+    """element_ptr_at / element_mut_ptr_at(any_vec_ptr, index) = base + index x element size (C13)"""
+    snap = p.cells.get(("O:vecraw", (2,)))
+    p.events.append(("element_ptr_at", callee, [a for a in argv], snap))
+    base, es = _vec_cells(ex, p)
+    t = "(bvadd %s (bvmul %s %s))" % (base[1], es[1], ex.as_bv(argv[1])[1])
+    ELEM_PTRS[t] = (ex.as_bv(argv[1])[1], es[1])
+    ex.set_ret(p, lhs, ("bv", t, 64))
+
+
+def s_remove_bytes(ex, p, callee, argv, lhs):
+    """<Remove as Operation>::bytes(&self) = element_ptr_at(self.any_vec_ptr, self.index)"""
+    idx = ex.field_of_ref(p, argv[0], 1)
+    base, es = _vec_cells(ex, p)
+    t = "(bvadd %s (bvmul %s %s))" % (base[1], es[1], ex.as_bv(idx)[1])
+    ELEM_PTRS[t] = (ex.as_bv(idx)[1], es[1])
+    ex.set_ret(p, lhs, ("bv", t, 64))
+
+
+def s_typed_ptr_add(ex, p, callee, argv, lhs):
+    """`*mut T`::add(n) for the vector's (statically known) element type: n elements = n x element size bytes"""
+    a, b = argv
+    _, es = _vec_cells(ex, p)
+    ex.set_ret(p, lhs, ("bv", "(bvadd %s (bvmul %s %s))" % (ex.as_bv(a)[1], es[1], ex.as_bv(b)[1]), 64))
+
+
+def s_copy(kind):
+    """ptr::copy::<T> / ptr::copy_nonoverlapping::<T> / copy_bytes / copy_nonoverlapping_value: one `copy` event with
+    (src, dst, byte count, may_overlap)"""
+    def h(ex, p, callee, argv, lhs):
+        _, es = _vec_cells(ex, p)
+        src, dst, n = ex.as_bv(argv[0])[1], ex.as_bv(argv[1])[1], ex.as_bv(argv[2])[1]
+        if kind == "typed":
+            unit_u8 = re.search(r"::<u8>$", callee) is not None
+            nbytes = n if unit_u8 else "(bvmul %s %s)" % (es[1], n)
+            count = n
+        else:
+            nbytes, count = n, None
+        snap = p.cells.get((getattr(ex, "vec_root", "O:vecraw"), (2,)))
+        p.events.append(("copy", callee, [("bv", src, 64), ("bv", dst, 64), ("bv", nbytes, 64)], snap, "nonoverlapping" in callee, count))
+    return h
+
+
+def s_move_into(ex, p, callee, argv, lhs):
+    snap = p.cells.get((getattr(ex, "vec_root", "O:vecraw"), (2,)))
+    p.events.append(("move_into", callee, [argv[1], argv[2]], snap))
+
+
+def s_size_of(ex, p, callee, argv, lhs):
+    """size_of::<V::Type>() in a branch where the value's type is statically known: by the (type-checked) caller
+    contract it is the vector's element type"""
+    _, es = _vec_cells(ex, p)
+    ex.set_ret(p, lhs, es)
+
+
+def s_reserve_one(ex, p, callee, argv, lhs):
+    """may reallocate: base pointer and capacity are new unknowns afterwards; len and element layout are untouched"""
+    snap = p.cells.get(("O:arg1", (2,)))
+    p.events.append(("reserve_one", callee, [], snap))
+    ex.counter += 1
+    ex.write(p, "O:arg1", (1, "$base"), ex.fresh_val(p, "base_after_reserve_%d" % ex.counter, "usize"))
+    ex.write(p, "O:arg1", ("$capacity",), ex.fresh_val(p, "cap_after_reserve_%d" % ex.counter, "usize"))
 
 
 def s_slice(ex, p, callee, argv, lhs):
@@ -888,9 +986,18 @@ SUMMARIES = [
     (r"utils::drop_elements_range::<.*>$", s_event("drop_elements_range")),
     (r"utils::move_elements_at::<.*>$", s_event("move_elements_at")),
     (r"iter::Iter::<.*>::new$|Iter::<'_, .*>::new$", s_event("iter_new")),
-    (r"element_ptr_at::<.*>$|element_mut_ptr_at::<.*>$", s_event("element_ptr_at")),
+    (r"element_ptr_at::<.*>$|element_mut_ptr_at::<.*>$", s_elem_ptr),
+    (r"Remove<.*> as Operation>::bytes$", s_remove_bytes),
+    (r"<impl \*(const|mut) .+>::cast::<.*>$", s_passthrough),
+    (r"ptr::copy::<.*>$|ptr::copy_nonoverlapping::<.*>$|intrinsics::copy::<.*>$|intrinsics::copy_nonoverlapping::<.*>$", s_copy("typed")),
+    (r"(^|::)copy_bytes$|(^|::)copy_nonoverlapping_value::<.*>$", s_copy("bytes")),
+    (r"AnyValueSizeless>::move_into::<.*>$", s_move_into),
+    (r"(^|::)size_of::<.*>$", s_size_of),
+    (r"AnyVecRaw::<.*>::reserve_one$", s_reserve_one),
+    (r"Unknown::is::<.*>$", s_fresh_bool("unknown_is")),
     (r"ElementPointer::<.*>::new$", s_fresh("element_pointer")),
     (r"IteratorItem<.*>>::element_to_item$", s_passthrough),
     (r"<impl \*(const|mut) u8>::add$", s_ptr_add),
+    (r"<impl \*(const|mut) .+>::add$", s_typed_ptr_add),
     (r"slice::from_raw_parts(_mut)?::<.*>$|from_raw_parts(_mut)?::<'?_?,? ?u8>$|from_raw_parts(_mut)?::<.*>$", s_slice),
 ]
